@@ -56,6 +56,9 @@ pub const TIME_EDGES: &[&str] = &[
     "2020-06-12T17:53:00Z", "2016-12-31T23:59:60Z", "0000-01-01T00:00:00Z", "9999-12-31T23:59:59Z", "10000-01-01T00:00:00Z",
     "2020-06-12T17:53:00+02:00", "2020-06-12 17:53:00", "2020-13-40T25:61:61Z", "garbage", "", "2020-06-12T17:53:00.123456789Z",
     "-0001-01-01T00:00:00Z", "2020-02-30T00:00:00Z", "1970-01-01T00:00:00-00:00", "+262143-01-01T00:00:00Z",
+    // the same second written in many ways (complete, shortened and missing zone designators)
+    "2020-06-12T17:53:00+02", "2020-06-12T17:53:00+0200", "2020-06-12T17:53:00-1", "2020-06-12T17:53:00+", "2020-06-12T17:53:00", "2020-06-12T17:53:00z",
+    "2020-06-12T17:53:00+02:0", "2020-06-12T17:53:00+99:99", "2020-06-12T17:53:00.5+02:00", "2020-06-12T17:53:00\u{e9}", "2020-06-12T17:53:00-00:00",
 ];
 
 #[derive(Debug, Clone, Serialize, Deserialize)]
@@ -139,6 +142,19 @@ fn touch_song(s: &res::Song) {
     let _ = format!("{s:?}");
 }
 
+/// Timestamps are compared with each other (sorting a listing by date): every pair, every operator.
+fn touch_timestamps(all: &[&res::Timestamp]) {
+    for a in all {
+        for b in all {
+            let _ = (a.cmp(b), a.partial_cmp(b), a == b, a < b, a >= b);
+        }
+    }
+    let mut sorted: Vec<&res::Timestamp> = all.to_vec();
+    sorted.sort();
+    sorted.dedup();
+    let _ = sorted.iter().max();
+}
+
 fn touch_list<const N: usize>(l: res::List<N>) {
     let n = l.grouped_values().count();
     let _ = l.grouped_values().take(n + 1).map(|(v, g)| v.len() + g.len()).sum::<usize>();
@@ -165,6 +181,13 @@ fn touch_list0(l: res::List<0>) {
     let _ = l.clone().into_iter().nth(2);
     let _ = l.clone().into_iter().nth_back(0);
     let _ = l.clone().into_iter().rev().count();
+    // every adaptor and bulk consumer of both (double-ended, exact-size) iterators; only panics matter here
+    let items: Vec<&str> = l.values().collect();
+    let _ = crate::props::c19::adaptors_agree("values()", true, || l.values(), &items, |x| x);
+    let _ = crate::props::c19::exact_size_agree("values()", || l.values(), items.len());
+    let owned: Vec<String> = l.clone().into_iter().collect();
+    let _ = crate::props::c19::adaptors_agree("into_iter()", true, || l.clone().into_iter(), &owned, |x| x);
+    let _ = crate::props::c19::exact_size_agree("into_iter()", || l.clone().into_iter(), owned.len());
     touch_list(l);
 }
 
@@ -195,6 +218,7 @@ pub fn decode(i: usize, frame: Frame, sel: u16, reach: &mut Reach) {
             note(reach, &r);
             if let Ok(v) = r {
                 v.iter().for_each(|s| touch_song(&s.song));
+                touch_timestamps(&v.iter().filter_map(|s| s.song.last_modified.as_ref()).collect::<Vec<_>>());
                 let _ = format!("{v:?}");
             }
         }
@@ -218,6 +242,7 @@ pub fn decode(i: usize, frame: Frame, sel: u16, reach: &mut Reach) {
                     #[cfg(feature = "chrono")]
                     let _ = p.last_modified.chrono_datetime();
                 }
+                touch_timestamps(&v.iter().map(|p| &p.last_modified).collect::<Vec<_>>());
                 let _ = format!("{v:?}");
             }
         }
